@@ -854,9 +854,13 @@ def run(chk):
         calls = hostile_pool_calls()
         chk.extra["hostile_pool_calls"] = len(calls)
         if q:
+            # quick: every call whose argument list holds a non-finite or extreme number, plus a seeded sample of the rest
+            must = [c for c in calls if re.search(r"0\.0/0\.0|1\.0/0\.0|1e300|1e-320|-0\.0", c)]
+            rest = [c for c in calls if c not in set(must)]
+            rng.shuffle(rest)
+            calls = must + rest[:max(0, 5000 - len(must))]
             rng.shuffle(calls)
-            calls = calls[:7000]
-        chunks = [calls[i:i + 150] for i in range(0, len(calls), 150)]
+        chunks = [calls[i:i + 60] for i in range(0, len(calls), 60)]
         chk.pmap(pool_case, [{"calls": c, "idx": i} for i, c in enumerate(chunks)], label="t hostile time-format / regex / percentile pools")
     chk.assumptions = [
         "shell-outs are disabled (MLR_NO_SHELL=1); system/exec/os-level and random functions are not in the matrix",
